@@ -9,9 +9,14 @@ class C05(rowgen.RowGenProp):
     id = "C05"
     lean_module = "Wheatley.Props.C05"
     theorems = ["Wheatley.C05.reset_is_init", "Wheatley.C05.second_touch_fresh",
-                "Wheatley.C05.touch_after_reset_fresh", "Wheatley.C05.method_start_resets"]
+                "Wheatley.C05.touch_after_reset_fresh", "Wheatley.C05.method_start_resets",
+                "Wheatley.C05.idle_is_fresh", "Wheatley.C05.every_touch_starts_afresh",
+                "Wheatley.C05.method_generator_is_a_fresh_one"]
     level_text = ("theorems: reset() of every state equals the freshly constructed generator, hence the rows after a "
-                  "reset equal a fresh generator's rows for every pair of histories (unbounded). correspondence: "
+                  "reset equal a fresh generator's rows for every pair of histories (unbounded); system level: from any "
+                  "idle Bot with its generator in ANY state, in every state of every run on any events, whenever the "
+                  "method is being rung the generator is a freshly constructed one plus the row requests, Bobs and "
+                  "Singles made of it - no reset needed, nothing inherited. correspondence: "
                   "histories ops1;reset;ops2 with ops1 ending at every offset inside multi-change calls, all generator "
                   "kinds; oracle: touch-2 rows = rows of a freshly constructed real generator given ops2. "
                   "non-trivial = touch 1 left something behind (a pending flag, a queued call or a moved row)")
